@@ -300,6 +300,14 @@ func WorkerMain(checkID, tier string) {
 	}
 	lim := syscall.Rlimit{Cur: memGB << 30, Max: memGB << 30}
 	syscall.Setrlimit(syscall.RLIMIT_AS, &lim)
+	// A modest descriptor limit (the harness itself keeps a few hundred open: parser roots, pipes,
+	// inotify): code under test that leaks one descriptor per evaluation runs out within one space
+	// instead of never, on a machine whose default limit is in the millions.
+	var nofile syscall.Rlimit
+	if syscall.Getrlimit(syscall.RLIMIT_NOFILE, &nofile) == nil && (nofile.Cur > 2048 || nofile.Cur == 0) {
+		nofile.Cur = 2048
+		syscall.Setrlimit(syscall.RLIMIT_NOFILE, &nofile)
+	}
 	ck := Lookup(checkID)
 	if ck == nil {
 		fmt.Fprintln(os.Stderr, "unknown check", checkID)
